@@ -35,6 +35,8 @@ inline void use_fmt(Sink &s, frg::string_view v) {
 	frg::format(42, s);
 	frg::format(-42l, s);
 	frg::format("cstr", s);
+	frg::format((char)1, s);             // char goes through format_integer / print_int<Sink, char>
+	frg::format(frg::fmt("{} {:d}", (char)2, (char)3), s);
 }
 inline void use_cmdline(frg::string_view cl) {
 	bool b = false; int n = 0; frg::string_view sv;
